@@ -1670,6 +1670,8 @@ BTree_maxminKey(BTree *self, PyObject *args, int min)
     {
         bucket = BTree_lastBucket(self);
         PER_UNUSE(self);
+        if (bucket == NULL)
+            return NULL;
         UNLESS (PER_USE(bucket))
         {
             Py_DECREF(bucket);
@@ -1805,7 +1807,11 @@ BTree_rangeSearch(BTree *self, PyObject *args, PyObject *kw, char type)
     {
         int bucketlen;
         highbucket = BTree_lastBucket(self);
-        assert(highbucket != NULL);  /* we know self isn't empty */
+        if (highbucket == NULL)      /* a node could not be activated */
+        {
+            Py_DECREF(lowbucket);
+            goto err;
+        }
         UNLESS (PER_USE(highbucket))
             goto err_and_decref_buckets;
         bucketlen = highbucket->len;
